@@ -180,7 +180,7 @@ func (x *inst) oracles(key string, final bool) {
 	}
 	if x.wants("read") && m.Open {
 		n := len(m.Live)
-		if x.cfg.AllReads && final {
+		if x.cfg.AllReads && deep { // every (offset,length) pair, once per distinct state per worker
 			for off := 0; off < n; off++ {
 				for l := 1; off+l <= n; l++ {
 					if !x.readCheck(off, l, "all-pairs") {
